@@ -66,6 +66,8 @@ structure AState where
   aySel : Nat := 0
   /-- the 14 registers the sound generator works from -/
   ayAudible : Bytes := List.replicate 14 0
+  /-- the envelope generator is at the start of its shape (as after a write to register 13) -/
+  ayEnvAtStart : Bool := true
   mouse : Bool := false
   deriving Inhabited
 
@@ -256,7 +258,9 @@ def applySPCR (mid : Nat) (d : Bytes) (a : AState) : AState :=
 def applyAY (mid : Nat) (d : Bytes) (a : AState) : AState :=
   let a := if mid < 2 then { a with ayPresent := d.getD 0 0 &&& 2 != 0 } else a
   if !a.ayPresent then a else
-  { a with aySel := (d.getD 1 0 &&& 15).toNat, ayRegs := (d.drop 2).take 16, ayAudible := (d.drop 2).take 14 }
+  -- a machine that has just had its registers written: the envelope starts its shape from the beginning
+  { a with aySel := (d.getD 1 0 &&& 15).toNat, ayRegs := (d.drop 2).take 16, ayAudible := (d.drop 2).take 14,
+           ayEnvAtStart := true }
 
 /-- ZXSTMOUSE: chType 0 none, 1 AMX, 2 Kempston -/
 def applyMouse (d : Bytes) (a : AState) : AState := { a with mouse := d.getD 0 0 = 2 }
@@ -344,6 +348,7 @@ def abs (m : Machine) : AState :=
     border := m.border, borderShown := m.borderDev,
     page := fun n => m.ram (absPage m.kind n),
     ayPresent := m.ayEnabled, ayRegs := m.ayRegs, aySel := m.aySel, ayAudible := m.ayChip,
+    ayEnvAtStart := m.ayEnvAtStart,
     mouse := m.mouse }
 
 end ZxVerif.Snap.Spec
